@@ -13,15 +13,19 @@ EXTENDS Integers, Sequences, FiniteSets, TLC, Json
 CONSTANTS MaxCells, MaxTokens
 
 (* tokens: <<"v", x>> value, <<"r", n>> repeat n times, <<"m", x>> multiply by x, *)
-(* <<"i", n>> n interpolated values up to the following value                    *)
+(* <<"i", n>> n interpolated values up to the following value.                   *)
+(* Expanded values are kept in units of 1/Den so that interpolations with a      *)
+(* step of a half or a third ("1 2i 0" = 1, 2/3, 1/3, 0) stay exact integers     *)
+(* inside TLC: what C12 needs of an importance is whether it is zero.            *)
+Den == 12
 RECURSIVE ExpandData(_, _, _)
 ExpandData(tk, i, acc) ==
   IF i > Len(tk) THEN acc
-  ELSE CASE tk[i][1] = "v" -> ExpandData(tk, i + 1, Append(acc, tk[i][2]))
+  ELSE CASE tk[i][1] = "v" -> ExpandData(tk, i + 1, Append(acc, Den * tk[i][2]))
          [] tk[i][1] = "r" -> ExpandData(tk, i + 1, acc \o [j \in 1..tk[i][2] |-> acc[Len(acc)]])
          [] tk[i][1] = "m" -> ExpandData(tk, i + 1, Append(acc, acc[Len(acc)] * tk[i][2]))
          [] tk[i][1] = "i" ->
-              LET lo == acc[Len(acc)]  hi == tk[i + 1][2]  n == tk[i][2]
+              LET lo == acc[Len(acc)]  hi == Den * tk[i + 1][2]  n == tk[i][2]
               IN ExpandData(tk, i + 2, acc \o [j \in 1..n |-> lo + (j * (hi - lo)) \div (n + 1)] \o <<hi>>)
 Expand(tk) == ExpandData(tk, 1, <<>>)
 Max2(a, b) == IF a > b THEN a ELSE b
@@ -44,11 +48,11 @@ Vals(tk) == IF pend THEN Expand(SubSeq(tk, 1, Len(tk) - 1)) ELSE Expand(tk)
 CanAdd(tk, t) ==
   LET vals == Vals(tk)  room == NCards - Len(vals) IN
   /\ Len(tk) < MaxTokens
-  /\ CASE t[1] = "v" -> IF pend THEN (t[2] - vals[Len(vals)]) % (tk[Len(tk)][2] + 1) = 0
+  /\ CASE t[1] = "v" -> IF pend THEN (Den * t[2] - vals[Len(vals)]) % (tk[Len(tk)][2] + 1) = 0
                                       /\ room >= tk[Len(tk)][2] + 1
                         ELSE room >= 1
        [] t[1] = "r" -> ~pend /\ Len(vals) >= 1 /\ room >= t[2]
-       [] t[1] = "m" -> ~pend /\ Len(vals) >= 1 /\ room >= 1 /\ vals[Len(vals)] * t[2] <= 4
+       [] t[1] = "m" -> ~pend /\ Len(vals) >= 1 /\ room >= 1 /\ vals[Len(vals)] * t[2] <= 4 * Den
        [] t[1] = "i" -> ~pend /\ Len(vals) >= 1 /\ room >= t[2] + 1
 Toks == { <<"v", x>> : x \in 0..3 } \cup { <<"r", n>> : n \in 1..3 } \cup { <<"m", 2>> }
         \cup { <<"i", n>> : n \in 1..2 }
@@ -90,6 +94,7 @@ Next == Shape \/ AddN \/ NextCard \/ AddP \/ EndP \/ Emit
 Spec == Init /\ [][Next]_vars
 
 (* design-level sanity: the shorthand of the manual's examples *)
-ASSUME Expand(<< <<"v",1>>, <<"r",2>>, <<"m",2>>, <<"i",1>>, <<"v",4>> >>) = <<1, 1, 1, 2, 3, 4>>
+ASSUME Expand(<< <<"v",1>>, <<"r",2>>, <<"m",2>>, <<"i",1>>, <<"v",4>> >>) = <<Den, Den, Den, 2 * Den, 3 * Den, 4 * Den>>
+ASSUME Expand(<< <<"v",1>>, <<"i",2>>, <<"v",0>> >>) = <<12, 8, 4, 0>>
 ExpandedLengthOK == pc = "emit" => Len(Expand(tokN)) = NCards
 =============================================================================
